@@ -71,7 +71,7 @@ def run(ctx):
     ok = False
     why = "sorting block not found"
     for path in function_paths(kern.node, loops=0):
-        if not any(s[0] == "cond" and U(s[1]) == "not already_sorted" and s[2] for s in path):
+        if not any(s[0] == "cond" and U(s[1]) == "already_sorted" and not s[2] for s in path):
             continue
         sts = [U(s[1]) for s in path if s[0] == "stmt"]
         order_var = [t.split(" = ")[0] for t in sts if t.endswith("= np.argsort(data_array)")]
